@@ -412,7 +412,7 @@ func monC10(b []byte) string {
 
 // C11: compositionality at reported boundaries
 func monC11(b []byte) string {
-	for _, k := range []string{"fg", "fw", "fs", "fl"} {
+	for _, k := range []string{"fg", "fw", "fs", "fl", "st"} {
 		full, e := chainSegs(k, b, false)
 		if e != "" {
 			return kindName[k] + ": " + e
@@ -439,6 +439,28 @@ func monC11(b []byte) string {
 				}
 				if got.end != full[j].end {
 					return fmt.Sprintf("%s: cut at reported boundary %d: segment %d ends at %d instead of %d", kindName[k], p, j, got.end, full[j].end)
+				}
+				if k == "st" {
+					// p is a cluster boundary: clusters and widths must be the same; the line / word /
+					// sentence flags must be the same for the segmenters for which Step reported a
+					// boundary at p (except the end-of-text flags of the prefix's last cluster)
+					if got.extra>>u.ShiftWidth != full[j].extra>>u.ShiftWidth {
+						return fmt.Sprintf("Step: cut at reported cluster boundary %d: cluster %d has width %d instead of %d", p, j, got.extra>>u.ShiftWidth, full[j].extra>>u.ShiftWidth)
+					}
+					if last {
+						continue
+					}
+					at := full[i].extra
+					if at&u.MaskLine != u.LineDontBreak && got.extra&u.MaskLine != full[j].extra&u.MaskLine {
+						return fmt.Sprintf("Step: cut at reported line break %d: cluster %d has line flag %d instead of %d", p, j, got.extra&u.MaskLine, full[j].extra&u.MaskLine)
+					}
+					if at&u.MaskWord != 0 && got.extra&u.MaskWord != full[j].extra&u.MaskWord {
+						return fmt.Sprintf("Step: cut at reported word boundary %d: cluster %d has word flag %d instead of %d", p, j, got.extra&u.MaskWord, full[j].extra&u.MaskWord)
+					}
+					if at&u.MaskSentence != 0 && got.extra&u.MaskSentence != full[j].extra&u.MaskSentence {
+						return fmt.Sprintf("Step: cut at reported sentence boundary %d: cluster %d has sentence flag %d instead of %d", p, j, got.extra&u.MaskSentence, full[j].extra&u.MaskSentence)
+					}
+					continue
 				}
 				if got.extra != full[j].extra && !(k == "fl" && last) {
 					return fmt.Sprintf("%s: cut at reported boundary %d: segment %d has width/mustBreak %d instead of %d", kindName[k], p, j, got.extra, full[j].extra)
